@@ -40,7 +40,7 @@ func totalInst(text string, cfg docCfg) *vm.Instance {
 			p[fmt.Sprintf("hole.h%d", k)] = "any"
 		}
 		if strings.Contains(text, fmt.Sprintf("#S%d", k)) {
-			p[fmt.Sprintf("hole.S%d", k)] = "2:xmlascii"
+			p[fmt.Sprintf("hole.S%d", k)] = c15StrLen + ":xmlascii"
 		}
 	}
 	return &vm.Instance{ID: text + " @" + cfg.tag(), Harness: "H_total", Params: p}
@@ -48,6 +48,7 @@ func totalInst(text string, cfg docCfg) *vm.Instance {
 
 // operand kinds: {number hole, string hole, boolean, node-sets, function results of each type}
 var c15Quick = true
+var c15StrLen = "1"
 
 func c15Operands(k int) []string {
 	n, s := fmt.Sprintf("900%d", k), fmt.Sprintf("'#S%d'", k)
@@ -68,7 +69,7 @@ var c15Funcs = []fnSig{
 	{"floor", 1, "n"}, {"ceiling", 1, "n"}, {"round", 1, "n"}, {"name", 1, "x"}, {"local-name", 1, "x"}, {"namespace-uri", 1, "x"},
 	{"string-length", 1, "s"}, {"normalize-space", 1, "s"}, {"lower-case", 1, "s"}, {"reverse", 1, "x"},
 	{"concat", 2, "ss"}, {"contains", 2, "ss"}, {"starts-with", 2, "ss"}, {"ends-with", 2, "ss"}, {"substring-before", 2, "ss"}, {"substring-after", 2, "ss"},
-	{"substring", 2, "sn"}, {"substring", 3, "snn"}, {"translate", 3, "sss"}, {"replace", 3, "sss"}, {"matches", 2, "ss"}, {"string-join", 2, "xs"},
+	{"substring", 2, "sn"}, {"substring", 3, "snN"}, {"translate", 3, "sss"}, {"replace", 3, "sss"}, {"matches", 2, "ss"}, {"string-join", 2, "xs"},
 	{"true", 0, ""}, {"false", 0, ""}, {"position", 0, ""}, {"last", 0, ""},
 }
 
@@ -82,6 +83,11 @@ func defaultArg(kind byte, k int) string {
 		return "true()"
 	case 'x':
 		return "a"
+	case 'N': // a second numeric argument: a literal in the quick tier (two interacting symbolic doubles are undecided by the FP back ends)
+		if c15Quick {
+			return "2"
+		}
+		return fmt.Sprintf("900%d", k)
 	}
 	return "a"
 }
@@ -91,7 +97,9 @@ func buildC15(tier string, seed int64) *Family {
 	cfg := docCfg{N: 3, A: 1, Names: "a,b", Pool: ",1,x"}
 	nestN := 60
 	c15Quick = tier != "thorough"
+	c15StrLen = "1"
 	if tier == "thorough" {
+		c15StrLen = "2"
 		cfg = docCfg{N: 4, A: 1, Names: "a,b", Pool: ",1,x, 1"}
 		nestN = 1500
 	}
@@ -131,6 +139,11 @@ func buildC15(tier string, seed int64) *Family {
 	exprs = append(exprs, "$x", "$x/a", "$x = 1", "a[$x]", "count($x)", "$p:x", "1[1]", "'a'[1]", "true()[1]", "(1)[1]", "9001[9002]", "'#S1'['#S2']",
 		"a[9001]", "*[9001]", "//*[9001]", "(//*)[9001]", "a[position() = 9001]", "a[last() - 9001]", "a[9001][9002]", "*[-9001]", "a[9001 mod 9002]",
 		"processing-instruction()", "processing-instruction('x')", "a/processing-instruction()", "node()", "text()", "comment()", "a = 1 or * = 1", "a = 1 and * = 1", "(a = 1) | (b = 1)", "a | 1", "1 | a", "(1, 2)", "a/(1)", "a/(b, 2)")
+	// non-ASCII strings (concrete probes: byte length differs from character length)
+	exprs = append(exprs, "translate('abcabc', 'abc', 'é')", "translate('abc', 'é', 'x')", "translate('éa', 'é', 'ab')", "translate('abc', 'cba', 'éx')", "translate(a, 'cba', 'éxyz')",
+		"substring('日本語', 2)", "substring('日本語', 2, 1)", "string-length('é')", "normalize-space(' é  ü ')", "lower-case('ÉA')", "contains('é', 'é')", "starts-with('éa', 'é')",
+		"substring-before('aéb', 'é')", "substring-after('aéb', 'é')", "concat('é', a)", "string-join(*, 'é')", "//*[. = 'é']", "translate('日本', '本日', 'ab')", "replace('aéb', 'é', 'x')",
+		"matches('é', '^.$')", "'é' = 'é'", "'é' < 1", "é", "//é", "@é", "é:é", "*[é]")
 	for _, ax := range append(append([]string{}, oracle.Axes...), "namespace", "Namespace", "child ", "foo") {
 		exprs = append(exprs, ax+"::a", ax+"::*", ax+"::a/b", "a/"+ax+"::node()", ax+"::a[1]", "*["+ax+"::a]", "count("+ax+"::*)")
 	}
@@ -179,5 +192,5 @@ func perInstC15(tier string) time.Duration {
 	if tier == "thorough" {
 		return 10 * time.Minute
 	}
-	return 45 * time.Second
+	return 90 * time.Second
 }
